@@ -80,4 +80,42 @@ instance (i : In) : Decidable (LegalIn i) := by unfold LegalIn; infer_instance
 def LegalInEnv (ins : List In) : Prop := ∀ i ∈ ins, LegalIn i
 instance (ins : List In) : Decidable (LegalInEnv ins) := by unfold LegalInEnv; infer_instance
 
+
+/-! ## Transfer boundaries as the host sees them
+
+`endsOk mps marks pkts` walks through the packets the host kept (`pkts`) alongside the `last` marks of
+the bytes the producer handed over (`marks`) and checks, packet by packet:
+
+* the packet's bytes were handed over by the producer and it is no longer than `mps`;
+* no byte but the final one of a packet carries a `last` mark — a transfer never continues inside a
+  packet, so the packet holding a `last` byte ends with it;
+* if that packet is not short (`length = mps`) a zero-length packet is *due*: the next packet the host
+  keeps is empty — i.e. the host sees a short packet or a ZLP before any data of the next transfer;
+* conversely a zero-length packet is kept only when it is due (so, without `flush`, the host's transfer
+  boundaries are exactly the producer's). -/
+
+structure EndSt where
+  rem  : List Bool      -- `last` marks of the producer's bytes not yet consumed by kept packets
+  owed : Bool           -- the previous kept packet was max-size and ended on a `last` byte: ZLP due
+  ok   : Bool
+deriving Repr, DecidableEq
+
+def endStep (mps : Nat) (e : EndSt) (p : List Nat) : EndSt :=
+  let chunk := e.rem.take p.length
+  { rem  := e.rem.drop p.length
+    owed := p.length == mps && chunk.getLast? == some true
+    ok   := e.ok && decide (p.length ≤ e.rem.length) && decide (p.length ≤ mps)
+              && (e.owed == p.isEmpty) && chunk.dropLast.all (!·) }
+
+def endFold (mps : Nat) (marks : List Bool) (pkts : List (List Nat)) : EndSt :=
+  pkts.foldl (endStep mps) ⟨marks, false, true⟩
+
+def endsOk (mps : Nat) (marks : List Bool) (pkts : List (List Nat)) : Bool := (endFold mps marks pkts).ok
+
+/-- Environment of the transfer-boundary theorem: as `LegalIn`, and ZLP generation is switched on. -/
+def LegalZlpIn (i : In) : Prop := LegalIn i ∧ i.genZlps = true
+instance (i : In) : Decidable (LegalZlpIn i) := by unfold LegalZlpIn; infer_instance
+def LegalZlpEnv (ins : List In) : Prop := ∀ i ∈ ins, LegalZlpIn i
+instance (ins : List In) : Decidable (LegalZlpEnv ins) := by unfold LegalZlpEnv; infer_instance
+
 end LunaVerif.InXfer
